@@ -271,12 +271,26 @@ func cfgEnv(cfg []string) []string {
 	env := []string{"GIT_CONFIG_COUNT=" + strconv.Itoa(len(cfg))}
 	for i, kv := range cfg {
 		p := strings.SplitN(kv, "=", 2)
+		if p[0] == "@pad" { // an unrelated entry with a value of that many bytes
+			n, _ := strconv.Atoi(p[1])
+			p = []string{"verif.pad", strings.Repeat("x", n)}
+		}
 		env = append(env, fmt.Sprintf("GIT_CONFIG_KEY_%d=%s", i, p[0]), fmt.Sprintf("GIT_CONFIG_VALUE_%d=%s", i, p[1]))
 	}
 	return env
 }
 
+// an unrelated configuration entry longer than 64 KiB ahead of the sizer.* entries (a record reader with a
+// fixed line limit stops there: seeded change C14q)
 func genOptCase(r *rng) optCase {
+	c := genOptCase0(r)
+	if len(c.cfgA) > 0 && r.coin(1, 6) {
+		c.cfgA = append([]string{fmt.Sprintf("@pad=%d", 66000+r.n(30000))}, c.cfgA...)
+	}
+	return c
+}
+
+func genOptCase0(r *rng) optCase {
 	thr := []string{"--verbose", "-v", "--no-verbose", "--critical", "--threshold=0", "--threshold=1", "--threshold=30", "--threshold=2.5", "--threshold=12", "--verbose=false", "--critical=false", "--threshold=-3"}
 	canon := map[string]string{"--verbose": "--threshold=0", "-v": "--threshold=0", "--no-verbose": "--threshold=1", "--critical": "--threshold=30",
 		"--verbose=false": "--threshold=1", "--critical=false": "--threshold=1"}
@@ -532,6 +546,13 @@ func init() {
 				os.WriteFile(filepath.Join(rr.dir, "info", "grafts"), b.Bytes(), 0o644)
 			}
 			os.MkdirAll(filepath.Join(w, "sub", "dir"), 0o755)
+			if len(objs)%2 == 0 {
+				// untracked files at the top of the work tree that look like the inside of a git directory:
+				// git looks for `.git` first, so they change nothing (seeded change C13q guessed from them)
+				os.WriteFile(filepath.Join(w, "HEAD"), []byte("ref: refs/heads/main\n"), 0o644)
+				os.MkdirAll(filepath.Join(w, "objects"), 0o755)
+				os.MkdirAll(filepath.Join(w, "refs"), 0o755)
+			}
 			env := envWith(gitEnv(), "PATH="+pathWithBin())
 			// linked worktree, if there is a commit to check out
 			wt := ""
